@@ -14,7 +14,7 @@ ID = "C12"
 MECHS = ["HH", "Leak", "Na", "K", "Km", "CaL"]
 RULE = (
     "Hypothesis draws heterogeneous compartments (own geometry, voltage and a drawn set of channels out of HH, Leak, Na, K, Km, "
-    "CaL - sharing vt/eK/eCa columns - with own conductances, shared-column values and gate states), assembles them bottom-up "
+    "CaL - sharing vt/eK/eCa columns, sometimes a second instance of a class under another name - with own conductances, shared-column values and gate states), assembles them bottom-up "
     "into branches of different lengths, cells of arbitrary tree shape and networks of 1-3 cells, a valid permutation of the "
     "branch order of every cell and a permutation of the cells. Oracles: (1) the assembled .nodes shows every constituent's "
     "parameters, states and channel flags at contiguous global indices, absent channels False/NaN; (2) each cell of a synapse-free "
@@ -46,14 +46,16 @@ def _comp(draw):
     c = {"radius": draw(gm.log_uniform(0.5, 10.0)), "length": draw(gm.log_uniform(5.0, 100.0)),
          "axial_resistivity": draw(gm.log_uniform(100.0, 5000.0)), "capacitance": draw(gm.log_uniform(0.5, 2.0)),
          "v": draw(fl(-75.0, -50.0)), "channels": []}
-    for mech in draw(st.lists(st.sampled_from(MECHS), max_size=3, unique=True)):
+    picks = draw(st.lists(st.tuples(st.sampled_from(MECHS), st.sampled_from([None, None, None, "b"])), max_size=3, unique=True))
+    for mech, suffix in picks:
         table = R2.CHANNELS[mech]
         params = {}
         for k, dflt in table["params"].items():
             if k.startswith("g") and draw(st.booleans()):
                 params[k] = draw(gm.log_uniform(dflt * 0.2, dflt * 5))
         states = {g: draw(fl(0.05, 0.95)) for g in table["states"] if draw(st.booleans())}
-        c["channels"].append({"mech": mech, "params": params, "states": states})
+        # a second instance of a class under another name (Channel(name=...)) is a different channel
+        c["channels"].append({"mech": mech, "name": None if suffix is None else mech + suffix, "params": params, "states": states})
     # shared columns get ONE value per compartment (they are one column)
     c["shared"] = {"vt": draw(fl(-65.0, -50.0)), "eK": draw(fl(-95.0, -80.0)), "eCa": draw(fl(110.0, 130.0)), "eNa": draw(fl(45.0, 55.0))}
     return c
@@ -114,12 +116,14 @@ def make_comp(c):
     for k in ("radius", "length", "axial_resistivity", "capacitance", "v"):
         comp.set(k, float(c[k]))
     for ch in c["channels"]:
-        comp.insert(getattr(jc, ch["mech"])())
+        name = ch.get("name") or ch["mech"]
+        cls = getattr(jc, ch["mech"])
+        comp.insert(cls(name) if ch.get("name") else cls())
         table = R2.CHANNELS[ch["mech"]]
         for k, val in ch["params"].items():
-            comp.set(k if k in table["globals"] else f"{ch['mech']}_{k}", float(val))
+            comp.set(k if k in table["globals"] else f"{name}_{k}", float(val))
         for k, val in ch["states"].items():
-            comp.set(f"{ch['mech']}_{k}", float(val))
+            comp.set(f"{name}_{k}", float(val))
     for k, val in c["shared"].items():
         if k in comp.nodes.columns:
             comp.set(k, float(val))
@@ -143,36 +147,33 @@ def make_cell(cell, perm=None):
 
 def expected_rows(comps):
     """Value model of the node table: one dict per compartment."""
-    union = []
+    union = []  # (mech, name)
     for c in comps:
         for ch in c["channels"]:
-            if ch["mech"] not in union:
-                union.append(ch["mech"])
+            key = (ch["mech"], ch.get("name") or ch["mech"])
+            if key not in union:
+                union.append(key)
     rows = []
     for c in comps:
         r = {k: float(c[k]) for k in ("radius", "length", "axial_resistivity", "capacitance", "v")}
-        have = {ch["mech"]: ch for ch in c["channels"]}
-        for mech in union:
-            table = R2.CHANNELS[mech]
-            r[mech] = mech in have
+        have = {(ch.get("name") or ch["mech"]): ch for ch in c["channels"]}
         cols = {}
-        for mech in union:
+        for mech, name in union:
             table = R2.CHANNELS[mech]
-            for k, dflt in table["params"].items():
-                col = k if k in table["globals"] else f"{mech}_{k}"
-                cols.setdefault(col, np.nan)
+            r[name] = name in have
+            for k in table["params"]:
+                cols.setdefault(k if k in table["globals"] else f"{name}_{k}", np.nan)
             for k in table["states"]:
-                cols.setdefault(f"{mech}_{k}", np.nan)
-        for mech, ch in have.items():
-            table = R2.CHANNELS[mech]
+                cols.setdefault(f"{name}_{k}", np.nan)
+        for name, ch in have.items():
+            table = R2.CHANNELS[ch["mech"]]
             for k, dflt in table["params"].items():
-                col = k if k in table["globals"] else f"{mech}_{k}"
                 if k in table["globals"]:
-                    cols[col] = float(c["shared"][k])
+                    cols[k] = float(c["shared"][k])
                 else:
-                    cols[col] = float(ch["params"].get(k, dflt))
+                    cols[f"{name}_{k}"] = float(ch["params"].get(k, dflt))
             for k, dflt in table["states"].items():
-                cols[f"{mech}_{k}"] = float(ch["states"].get(k, dflt))
+                cols[f"{name}_{k}"] = float(ch["states"].get(k, dflt))
         r.update(cols)
         rows.append(r)
     return rows
@@ -240,10 +241,12 @@ def judge(spec, tier="quick"):
     N = len(comps)
     stim = [s for s in spec["stim"] if s["row"] < N]
     # bookkeeping for non-triviality
-    chsets = {tuple(sorted(ch["mech"] for ch in c["channels"])) for c in comps}
+    chsets = {tuple(sorted((ch.get("name") or ch["mech"]) for ch in c["channels"])) for c in comps}
     ncs = {len(b) for cell in cells for b in cell["branches"]}
     if len(chsets) >= 2 and len(ncs) >= 2:
-        out.nontrivial_keys.append(core.h([[(cell["parents"], [[tuple(sorted(ch["mech"] for ch in c["channels"])) for c in b] for b in cell["branches"]]) for cell in cells], level]))
+        out.nontrivial_keys.append(core.h([[(cell["parents"], [[tuple(sorted((ch.get("name") or ch["mech"]) for ch in c["channels"])) for c in b] for b in cell["branches"]]) for cell in cells], level]))
+    if any(ch.get("name") for c in comps for ch in c["channels"]):
+        out.classes.append("renamed channel instance")
     out.classes.append("level:" + level)
 
     def whole():
@@ -257,6 +260,14 @@ def judge(spec, tier="quick"):
         return out
     # (1) table
     out.evals += 1
+    want_names = []
+    for c in comps:
+        for ch in c["channels"]:
+            if (ch.get("name") or ch["mech"]) not in want_names:
+                want_names.append(ch.get("name") or ch["mech"])
+    if sorted(ch._name for ch in m.channels) != sorted(want_names):
+        out.violate("table", f"assembled {level} registers channels {[ch._name for ch in m.channels]}, its constituents carry {want_names}")
+        return out
     bad = table_mismatch(m.nodes, expected_rows(comps))
     if bad:
         out.violate("table", f"assembled {level} (cells {[c['parents'] for c in cells]}, ncomp {[[len(b) for b in c['branches']] for c in cells]}): {bad}")
